@@ -379,7 +379,9 @@ func genValid(r *mon.Rand) mon.RefValid {
 		}
 	}
 	nc := r.Intn(7)
-	pool := []rune{'_', '-', '.', ':', ' ', 'é', '中', '😀', '=', ',', '+', '/', 'z', 'A', '9', 0, '\ufffd'}
+	// (the last four are no code points that can be encoded - half of a
+	// surrogate pair, a negative value, one beyond U+10FFFF: they match nothing)
+	pool := []rune{'_', '-', '.', ':', ' ', 'é', '中', '😀', '=', ',', '+', '/', 'z', 'A', '9', 0, '\ufffd', 0xD800, 0xDFFF, -1, 0x110000}
 	for i := 0; i < nc; i++ {
 		v.Chars = append(v.Chars, pool[r.Intn(len(pool))])
 	}
